@@ -13,7 +13,7 @@ from .pag import PAG
 class AugmentedNodeMixin:
     graph: dict
     nodes: NodeView
-    domains: Set[int] = set()
+    domains: Set[int]
 
     @abstractmethod
     def add_edge(self, u_of_edge, v_of_edge, edge_type="all", **attr):
@@ -29,6 +29,9 @@ class AugmentedNodeMixin:
         pass
 
     def _verify_augmentednode_dict(self):
+        # the set of domain ids belongs to this graph (it must not be shared by all instances)
+        self.domains = set()
+
         # verify validity of F nodes
         if "F-nodes" not in self.graph:
             self.graph["F-nodes"] = collections.defaultdict(lambda: collections.defaultdict(set))
@@ -67,6 +70,7 @@ class AugmentedNodeMixin:
                 f_nodes[f_node][key] = set(val) if isinstance(val, set) else val
         G.graph["F-nodes"] = f_nodes
         G.graph["S-nodes"] = dict(self.graph["S-nodes"])
+        G.domains = set(self.domains)
 
     def add_f_node(self, intervention_set: Set[Node], require_unique=True, domain=None):
         """Add an F-node to the graph.
